@@ -166,7 +166,9 @@ class Verifier:
         try:
             for combo in combos:
                 case = dict(zip(names, combo))
-                if c.block:
+                if c.relate:
+                    r = self._verify_relational(c, fdef, consts, case, ob)
+                elif c.block:
                     r = self._verify_block(c, fdef, consts, case, ob)
                 elif c.stmt:
                     r = self._verify_stmt(c, fdef, consts, case, ob)
@@ -282,6 +284,96 @@ class Verifier:
                 for lab2, h2, f2 in est.checks:
                     pass
                 self._discharge(o, hyps, g, inputs, f'{label} [{case_tag}]', c, case)
+        return (True, normal)
+
+    def _verify_relational(self, c, fdef, consts, case, ob):
+        """Relational contract by self-composition: the real function body is executed twice, on
+        the inputs and on inputs derived from them by c.relate['second'] (CL expressions over
+        the parameters and c.relate['extra'] variables); ensures relate `result` and `result2`.
+        requires must hold for both argument vectors.  Both runs must agree on raising."""
+        st = State()
+        ex = Executor(self.reg, consts)
+        ex.loop_specs = c.loops
+        inputs = []
+        fparams = self._param_nodes(fdef)
+        for name, spec in list(c.params.items()) + list(c.relate.get('extra', {}).items()):
+            v = case[name] if name in case else make_symbolic(spec, name, self.reg, st)
+            st.env[name] = v
+            leaves(name, v, inputs)
+        defaults = self._defaults(fdef)
+        for p in fparams:
+            if p not in st.env:
+                if p in defaults:
+                    st.env[p] = defaults[p]
+                elif p == 'cls':
+                    st.env[p] = ('class', c.cls)
+                else:
+                    raise Unsupported(f'parameter {p} has no spec and no default')
+        env1 = dict(st.env)
+        env2 = dict(st.env)
+        for name, text in c.relate.get('second', {}).items():
+            env2[name] = ex.eval_cl(text, State(dict(env1))) if isinstance(text, str) else text
+        for r in c.requires:
+            st.assume(ex.eval_cl(r, st))
+            s2 = State(dict(env2))
+            st.assume(ex.eval_cl(r, s2))
+            for f in s2.facts:
+                st.fact(f)
+        res, _, _ = solve.check(st.hyps(), timeout_s=self.timeout_s)
+        if res != 'sat':
+            return (False, 0)
+        extra_names = set(c.relate.get('extra', {}))
+        st1 = st.clone()
+        for k in extra_names:
+            st1.env.pop(k, None)
+        st2 = st.clone()
+        st2.env = {k: v for k, v in env2.items() if k not in extra_names}
+        st2 = st2.clone()
+        ex1 = Executor(self.reg, consts)
+        ex1.loop_specs = c.loops
+        paths1 = ex1.run_function(fdef, st1, cls=c.cls)
+        ex2 = Executor(self.reg, consts)
+        ex2.loop_specs = c.loops
+        paths2 = ex2.run_function(fdef, st2, cls=c.cls)
+        case_tag = ','.join(f'{k}={v!r}' for k, v in case.items())
+        normal = 0
+        for p1, oc1 in paths1:
+            for p2, oc2 in paths2:
+                hyps = p1.hyps() + p2.hyps()
+                r1, r2 = oc1[0] == 'raise', oc2[0] == 'raise'
+                if r1 or r2:
+                    if r1 and r2 and oc1[1] == oc2[1]:
+                        continue
+                    o = ob('same-outcome', 'both runs raise the same exception or neither raises')
+                    self._discharge(o, hyps, z3.BoolVal(False), inputs,
+                                    f'run 1 {oc1[0]} {oc1[1] if r1 else ""} / run 2 {oc2[0]} '
+                                    f'{oc2[1] if r2 else ""} [{case_tag}]', c, case)
+                    continue
+                s = z3.Solver()
+                s.set('timeout', 2000)
+                s.add(*hyps)
+                if s.check() == z3.unsat:
+                    continue
+                normal += 1
+                for label, text in c.ensures:
+                    o = ob(f'ensures:{label}', text)
+                    est = State(dict(env1))
+                    est.env['result'] = oc1[1]
+                    est.env['result2'] = oc2[1]
+                    est.facts = list(p1.facts) + list(p2.facts)
+                    est.pc = list(p1.pc) + list(p2.pc)
+                    gex = Executor(self.reg, consts)
+                    gex.goal_mode = True
+                    gex.cur_class = c.cls
+                    nf = len(est.facts)
+                    try:
+                        g = gex.eval_cl(text, est)
+                    except Unsupported as e:
+                        o.status = LOST if o.status == DISCHARGED else o.status
+                        o.detail += f'postcondition not evaluable on this path pair: {e}; '
+                        continue
+                    self._discharge(o, hyps + est.facts[nf:], g, inputs, f'{label} [{case_tag}]',
+                                    c, case)
         return (True, normal)
 
     def _verify_block(self, c, fdef, consts, case, ob):
@@ -489,6 +581,9 @@ class Verifier:
                 o.replay['ensures'] = [list(x) for x in c.ensures]
                 o.replay['raises'] = [list(x) for x in c.raises]
                 o.replay['requires'] = list(c.requires)
+                if c.relate:
+                    o.replay['relate'] = {'second': dict(c.relate.get('second', {})),
+                                          'extra': sorted(c.relate.get('extra', {}))}
             return
         if o.status == DISCHARGED:
             o.status = UNKNOWN
